@@ -191,7 +191,7 @@ macro "buf_wp" : tactic => `(tactic|
   simp only [Buf.ctorCap, Buf.ctorData, Buf.attach, Buf.assign, Buf.assignSelf, Buf.prepend, Buf.prependSelf, Buf.prependSub,
     Buf.resize, Buf.termIfOwning, Buf.append, Buf.appendSelf, Buf.home, Buf.removeFront, Buf.removeBack,
     Buf.reserve, Buf.clear, Buf.default, Buf.contents, Buf.free, Buf.destroy, Buf.ownId, newBlock, Store.release,
-    Buf.owning, Store.write, Store.load, noOverlap, LStep,
+    Buf.owning, Store.write, Store.load, noOverlap, LStep, newCap,
     okM_bind, okM_pure, okM_liftO, okM_fault, okM_ite, okM_allocId, okM_checkLive, okM_deleteId,
     List.mem_cons, List.mem_filter, bne_iff_ne, ne_eq, Option.some.injEq, reduceCtorEq,
     ok_bind, ok_ite, ok_map, ok_wrList, ok_rdList, ok_ptrSub, ok_pure, ok_some, ok_none,
